@@ -123,9 +123,9 @@ func zzCheckFuncode(got, want *Funcode, prog *Program) {
 //verif:maxpaths 600
 func zzH17_roundtrip() {
 	// which function carries symbolic booleans (each symbolic bool forks in b2i)
-	flags := zzChoice("flags", 3)
-	if zzParam("allflags", 0, 1) == 1 {
-		flags = -1 // thorough: all seven flags symbolic at once (128 paths)
+	flags := -1 // thorough: all seven flags symbolic at once (128 paths)
+	if zzParam("allflags", 0, 1) == 0 {
+		flags = zzChoice("flags", 3)
 	}
 	top := zzSymFuncode("top", 0, 0, 1, 2, 1, 2, 0, flags == 0 || flags < 0)
 	f0 := zzSymFuncode("f0", 2, 1, 0, 4, 3, 1, 2, flags == 1 || flags < 0)
